@@ -228,3 +228,65 @@ PROP["theorems"] += ["Gnmi.C19.valueEqual_eq_equal", "Gnmi.C19.valueEqual_sound"
 PROP["manifest"]["level_text"] += (
     " The value test behind ExactStream (Cache.valueEqual) is the C19 model of value.Equal on every value the cache model holds "
     "(valueEqual_eq_equal), and a suppressed update carries the same value up to the sign of a floating-point zero (valueEqual_sound).")
+# --- round 2 (builder bC01W): the pipeline on protobuf-shaped messages ("whatever the value types, list keys or origins
+# involved"): Model/PipelineWire.lean (wire-level run out of Wire.mgrRecv / stampWire / wireGnmiUpdate), Lemmas/PipelineWire.lean,
+# Props/C01Wire.lean; driver + harness component e2ew (lean/Driver/E2EW.lean, go/vcorr/e2ew.go)
+PROP["modules"] += ["Gnmi.Model.PipelineWire", "Gnmi.Lemmas.PipelineWire", "Gnmi.Props.C01Wire"]
+PROP["theorems"] += ["Gnmi.C01W." + t for t in [
+    # target side: the wire-level run is the index-form run on the toNoti-translated responses
+    "wire_run_is_index_run", "wire_run_is_index_run_from", "wire_runR_is_index_runR", "wsessionSteps_toStep",
+    "collector_cache_holds_final_view_wire", "pipeline_faithful_once_wire", "pipeline_faithful_stream_wire",
+    "pipeline_faithful_once_restart_wire",
+    # client side
+    "client_decode_commutes", "client_delete_commutes", "client_recv_commutes", "expected_leaves_wire", "wfinalView_src",
+    "expected_leaves_wire_toScalar",
+    # key order, encodings
+    "toItem_key_order", "wire_key_order_irrelevant", "wkey_key_order", "toStrings_encodings", "wkey_encodings",
+    # the arms ToScalar does not map one to one; the fragment in wire terms
+    "decimal_is_float32", "decimal_collapse", "leaflist_elementwise", "json_outside_fragment",
+    "nested_leaflist_outside_fragment", "wire_fragment_iff",
+    # the wire-level finding (update without `path` field) and its proved complement
+    "client_accepts_stored_partial", "nil_path_update_fails_client", "client_accepts_stored_full_false",
+    # non-vacuity: the computed wire-level run
+    "exRun_eq", "ex_once_dev1", "ex_once_dev2", "ex_expected", "ex_once_is_expected", "exStepsB_ok", "exStepsB_wf"]] + [
+    "Gnmi.PW." + t for t in [
+    "toNoti_stamp_exact", "wdeliver_eq", "wrecv_eq", "wstep_eq", "wrun_eq", "wrunR_eq", "sinv_run", "sinv_runR",
+    "wdeliver_stamped", "tailOK_of_b", "keyOf_toNoti", "absView_wfinalView", "itemsOf_toStep", "senders_toStep",
+    "scalar_decode_commutes", "list_decode_commutes", "value_decode_commutes", "path_decode_commutes"]]
+PROP["components"].append(
+    # the e2e scenarios with the notifications given in the WIRE-SHAPED token (prefix / elem with key map in a written
+    # order / deprecated element / TypedValue arm): the Lean side translates the message itself (Wire.toNoti, Wire.stampWire)
+    # and computes the expected client tree from the wire-level view (PW.wfinalView); every key map written in a random
+    # order, sometimes both encodings set; exhaustive scope: the run of C01W.exSteps, ONCE and every STREAM subscription point
+    {"c": "e2ew", "min_len": 1, "quick": {"n": 150, "exhaustive": True}, "thorough": {"n": 800, "exhaustive": True, "seeds": 2}})
+PROP["manifest"]["level_text"] += (
+    " Protobuf-shaped messages (Props/C01Wire.lean, Model/PipelineWire.lean): the same pipeline run on decoded "
+    "gnmi.SubscribeResponses - Elem vs deprecated Element, key maps in any iteration order, origin in prefix or path, every "
+    "TypedValue arm - through the wire-level models of manager.handleGNMIUpdate, the collector's Update closure on the protobuf "
+    "prefix and Cache.GnmiUpdate on the message (C12's Wire.mgrRecv / stampWire / toNoti) IS the index-form run on the "
+    "translated responses (wire_run_is_index_run, wire_runR_is_index_runR; hypotheses: WireValid responses, well-formed cache "
+    "state - true from start on -, and TailOK: the index model's String.splitOn on a rendered prefix finds its element half, a "
+    "fact about the string encoder that the e2ew driver evaluates on every prefix), so the cache / ONCE / STREAM / restart "
+    "theorems hold of wire-level targets (collector_cache_holds_final_view_wire, pipeline_faithful_once_wire, "
+    "pipeline_faithful_stream_wire, pipeline_faithful_once_restart_wire); the run does not depend on the iteration order of any "
+    "key map (wire_key_order_irrelevant, composing C19.toStrings_perm_invariant) and both path encodings give the same key "
+    "(wkey_encodings). Client side: client/gnmi noti() on the protobuf response of a stored notification yields the index "
+    "path and the value.ToScalar value the index-form client holds (client_decode_commutes, client_recv_commutes; floats by bit "
+    "pattern, a decimal as the pair whose float32 quotient ToScalar returns: decimal_is_float32, decimal_collapse; leaf-lists "
+    "element-wise; JSON / any / ascii / proto_bytes / nested leaf-lists are outside the fragment: wire_fragment_iff, "
+    "json_outside_fragment), hence the leaves a ONCE client holds are T :: origin-or-openconfig :: ToStrings(prefix) ++ "
+    "ToStrings(path) -> ToScalar(value) of the target's final wire-level view (expected_leaves_wire, "
+    "expected_leaves_wire_toScalar, wfinalView_src). A wire-level finding the index form cannot see: an update WITHOUT path "
+    "field (whole path in the prefix) is stored and relayed but rejected by client/gnmi (client_accepts_stored_full_false; "
+    "corpus/C01/wire_nil_path_update.ops; proposed_fixes/client_nil_update_path.diff); with the field present the client "
+    "accepts every stored leaf (client_accepts_stored_partial). Correspondence: component e2ew runs the e2e scenarios from "
+    "wire-shaped tokens, the expected tree computed through these translations.")
+PROP["trusted_base"] = [a.replace(
+    "the decoding of the wire bytes into the Pipeline model's index-form responses is "
+    "not composed with C12's protobuf-shaped receive model",
+    "the Pipeline model's index-form responses are composed with C12's protobuf-shaped models on the target side "
+    "(C01W.wire_run_is_index_run, modulo TailOK: String.splitOn on the encoder's output, evaluated by the e2ew driver) and, per "
+    "response, on the client side (C01W.client_recv_commutes); the Subscribe server's wire responses are not modelled as a "
+    "whole run (the server sends the stored notification: C12 RX.makeResponse)") for a in PROP["trusted_base"]]
+PROP["rule"] += ("; component e2ew: the same scenarios with every notification in the wire-shaped token (key maps written in a "
+                 "random order, Elem / Element / both, origin and target fields), corpus/C01/wire_nil_path_update.ops")
